@@ -902,7 +902,11 @@ func (env *SpecEnv) evalCall(x *SExpr) *Val {
 			}
 			if v.T != nil {
 				if mt, ok := v.T.Underlying().(*types.Map); ok {
-					return mathInt(e.mapLen(env.cur, mt, v.term()))
+					ln := e.mapLen(env.cur, mt, v.term())
+					if env.facts != nil {
+						*env.facts = append(*env.facts, fmt.Sprintf("(and (<= 0 %s) (<= %s 1099511627776))", ln, ln))
+					}
+					return mathInt(ln)
 				}
 				if isString(v.T) {
 					return mathInt(fmt.Sprintf("(strlen %s)", v.term()))
@@ -1183,6 +1187,27 @@ func (e *Enc) evalModTarget(x *SExpr, env *SpecEnv) []modTarget {
 		case "held":
 			r := env.lockRef(x.Args[1])
 			return []modTarget{{comp: "L:held", sort: "(Array Int Int)", kind: "point", addr: r}}
+		case "freshof":
+			// freshof(T.f): field component T.f, but only of objects allocated during the call/loop
+			tf := x.Args[1]
+			if tf.Op != "sel" {
+				env.fail("freshof(T.f) expected")
+			}
+			t := e.w.resolveType(env.pkg, tf.Args[0].String())
+			if t == nil {
+				env.fail("unknown type %s", tf.Args[0])
+			}
+			stt := t.Underlying().(*types.Struct)
+			for i := 0; i < stt.NumFields(); i++ {
+				if stt.Field(i).Name() == tf.Name {
+					var lvs []leaf
+					e.memLeaves(stt.Field(i).Type(), "F:"+structKey(t)+"."+tf.Name, &lvs)
+					for _, lf := range lvs {
+						out = append(out, modTarget{comp: lf.suffix, sort: lf.sort, kind: "fresh"})
+					}
+				}
+			}
+			return out
 		case "allof":
 			// allof(T.f): the whole field component, any object
 			tf := x.Args[1]
